@@ -13,6 +13,10 @@ import (
 	"google.golang.org/protobuf/proto"
 )
 
+// aesGcmNonceSize is the size of the nonce that the aead wrapper prepends to
+// the ciphertext
+const aesGcmNonceSize = 12
+
 // X25519KeyProducer is an interface that can be satisfied by an underlying type
 // that produces an encryption key via X25519, along with a key identifier used
 // for AAD and embedding in the wrapping data. If the ID is empty, it is simply
@@ -144,6 +148,13 @@ func decryptWithKey(ctx context.Context, keyId string, ct []byte, sharedKey []by
 	blobInfo := new(wrapping.BlobInfo)
 	if err := proto.Unmarshal(ct, blobInfo); err != nil {
 		return fmt.Errorf("(%s) error unmarshaling incoming blob info: %w", op, err)
+	}
+
+	// The aead wrapper expects the AES-GCM nonce at the front of the ciphertext
+	// and slices it off without checking the length, so reject short values
+	// here; they may come straight from a remote peer
+	if len(blobInfo.Ciphertext) < aesGcmNonceSize {
+		return fmt.Errorf("(%s) ciphertext in incoming blob info is too short", op)
 	}
 
 	var aadOpt wrapping.Option
